@@ -23,6 +23,15 @@ var Root = func() string {
 	return "/verif"
 }()
 
+// outRoot is where evidence and replays go: /verif normally, the scratch dir when a mutant overlay is
+// active (so demonstrations never overwrite the committed evidence of the real tree).
+func outRoot() string {
+	if os.Getenv("VERIF_MUTANT") != "" && os.Getenv("VERIF_WORK") != "" {
+		return os.Getenv("VERIF_WORK")
+	}
+	return Root
+}
+
 type finding struct {
 	Property string `json:"property"`
 	Key      string `json:"key"`
@@ -177,7 +186,7 @@ func (r *Run) Violation(sig, what string, replay any) bool {
 		return true
 	}
 	h := sha1.Sum([]byte(sig))
-	dir := filepath.Join(Root, "replays", r.ID)
+	dir := filepath.Join(outRoot(), "replays", r.ID)
 	os.MkdirAll(dir, 0o755)
 	path := filepath.Join(dir, hex.EncodeToString(h[:6])+".json")
 	b, _ := json.MarshalIndent(map[string]any{"property": r.ID, "signature": sig, "what": what, "replay": replay}, "", " ")
@@ -248,8 +257,8 @@ func (r *Run) Finish() {
 	nv := len(r.violations)
 	r.mu.Unlock()
 	b, _ := json.MarshalIndent(out, "", " ")
-	os.MkdirAll(filepath.Join(Root, "evidence"), 0o755)
-	if err := os.WriteFile(filepath.Join(Root, "evidence", r.ID+".json"), b, 0o644); err != nil {
+	os.MkdirAll(filepath.Join(outRoot(), "evidence"), 0o755)
+	if err := os.WriteFile(filepath.Join(outRoot(), "evidence", r.ID+".json"), b, 0o644); err != nil {
 		Harness("cannot write evidence: %v", err)
 	}
 	var keys []string
